@@ -74,14 +74,15 @@ pub fn generate(r: &mut Runner) {
     r.log_every = if r.tier == Tier::Quick { 11 } else { 151 };
     for i in 0..cases {
         let name = ind::NAMES[i % ind::NAMES.len()];
-        let small = i % 2 == 0;
+        let small = r.rng.chance(0.5);
         let (ps, ms) = crate::diff::params_for(&mut r.rng, name, if small { 4 } else { 64 });
         let mx = ps.iter().copied().max().unwrap_or(1);
         let scale = *r.rng.pick(&[1.0, 100.0, 1e6]);
         let mut c = Case::new("C06", if small { "every-prefix" } else { "random-position" }, name, &ps, &ms);
         if small {
             let hl = 2 * mx + 3;
-            let h = super::c04::history(r, name, hl, 0.0, scale);
+            let wp = if r.rng.chance(0.25) { 0.2 } else { 0.0 };
+            let h = super::c04::history(r, name, hl, wp, scale);
             c.ops.push(Op::Mark); // fresh
             for op in h {
                 c.ops.push(op);
@@ -91,7 +92,7 @@ pub fn generate(r: &mut Runner) {
             c.ops.push(Op::Mark); // just reset
         } else {
             let hl = r.rng.range(0, 400);
-            let wp = if i % 7 == 0 { 0.02 } else { 0.0 };
+            let wp = if r.rng.chance(0.15) { 0.02 } else { 0.0 };
             c.ops = super::c04::history(r, name, hl, wp, scale);
             c.ops.push(Op::Mark);
         }
